@@ -236,6 +236,86 @@ Section R.
   Corollary lex_two_notations s raws : lex L0 N0 false s = Some raws ->
     lex il inn false s = recl_all false raws /\ lex il inn true s = recl_all true raws.
   Proof. intros H. unfold lex in *. rewrite !lex_factor, H. split; reflexivity. Qed.
+  (* ---------- comments ---------- *)
+
+  Lemma classify_nocomment infix w ts : cls infix w = Some ts -> drop_comments ts = ts.
+  Proof.
+    assert (P : forall w ts, cls false w = Some ts -> drop_comments ts = ts).
+    { clear w ts. intros w ts H. unfold classify in H.
+      assert (Q : (if str_eqb w (ss "(") then Some [KLParen] else if str_eqb w (ss ")") then Some [KRParen]
+                   else if str_eqb w (ss "[") then Some [KLBracket] else if str_eqb w (ss "]") then Some [KRBracket]
+                   else if str_eqb w (ss ",") then Some [KComma]
+                   else if valid_int w then Some [KInt w]
+                   else if valid_ident il inn w then Some [KIdent w] else None) = Some ts).
+      { destruct w as [|c rest]; [exact H|]. rewrite andb_false_r in H. exact H. }
+      clear H.
+      destruct (str_eqb w (ss "(")); [inversion Q; reflexivity|].
+      destruct (str_eqb w (ss ")")); [inversion Q; reflexivity|].
+      destruct (str_eqb w (ss "[")); [inversion Q; reflexivity|].
+      destruct (str_eqb w (ss "]")); [inversion Q; reflexivity|].
+      destruct (str_eqb w (ss ",")); [inversion Q; reflexivity|].
+      destruct (valid_int w); [inversion Q; reflexivity|].
+      destruct (valid_ident il inn w); [inversion Q; reflexivity|discriminate]. }
+    destruct infix; [|apply P]. rewrite classify_true. destruct w as [|c rest]; [apply P|].
+    destruct (c =? 33)%N; [|apply P].
+    destruct (valid_ident il inn (c :: rest)); [intros H; inversion H; reflexivity|].
+    destruct (valid_ident il inn rest); [intros H; inversion H; reflexivity|apply P].
+  Qed.
+
+  (* dropping the comments commutes with reclassification *)
+  Lemma recl_drop infix raws : option_map drop_comments (recl_all infix raws) = recl_all infix (drop_comments raws).
+  Proof.
+    induction raws as [|t l IH]; [reflexivity|].
+    destruct (is_comment t) eqn:Hc.
+    - destruct t; try discriminate. change (drop_comments (KComment s :: l)) with (drop_comments l). rewrite <- IH.
+      cbn [recl_all recl]. destruct (recl_all infix l) as [r|]; reflexivity.
+    - assert (Ed : drop_comments (t :: l) = t :: drop_comments l) by (unfold drop_comments; cbn [filter]; rewrite Hc; reflexivity).
+      rewrite Ed. cbn [recl_all]. destruct (recl infix t) as [ts|] eqn:Er; [|reflexivity]. rewrite <- IH.
+      destruct (recl_all infix l) as [r|]; [|reflexivity]. cbn [option_map]. rewrite drop_comments_app. f_equal. f_equal.
+      destruct t as [w|w|w| | | | | |w]; cbn [recl] in Er; try discriminate;
+        try (apply (classify_nocomment infix w ts Er)); inversion Er; reflexivity.
+  Qed.
+
+  (* ---------- layout invariance for every accepted source, either notation ---------- *)
+
+  (* every source the lexer accepts - in either notation - is white space followed by a well-formed rendering of its raw
+     pieces, and its tokens are the reclassification of those pieces *)
+  Theorem lex_accepts_rendering infix s toks : lex il inn infix s = Some toks ->
+    exists lead items, s = lead ++ render items /\ all_space lead /\ wf_items L0 N0 false items /\
+                       recl_all infix (map fst items) = Some toks.
+  Proof.
+    intros H. unfold lex in H. rewrite lex_factor in H.
+    destruct (lex_loop L0 N0 (S (length s)) false s) as [raws|] eqn:E; [|discriminate].
+    destruct (lex_complete L0 N0 _ s raws E) as (lead & items & Es & Hl & Hwf & Em).
+    exists lead, items. rewrite Em. repeat split; assumption.
+  Qed.
+
+  (* two layouts of the same raw pieces - any white space, empty only where two words would fuse - give the same tokens *)
+  Theorem layout_invariance_any infix lead1 lead2 items1 items2 :
+    all_space lead1 -> all_space lead2 ->
+    wf_items L0 N0 false items1 -> wf_items L0 N0 false items2 -> map fst items1 = map fst items2 ->
+    lex il inn infix (lead1 ++ render items1) = lex il inn infix (lead2 ++ render items2).
+  Proof.
+    intros Hl1 Hl2 H1 H2 E. unfold lex. rewrite !lex_factor.
+    rewrite (lex_render L0 N0 false items1 _ lead1 H1 Hl1) by lia.
+    rewrite (lex_render L0 N0 false items2 _ lead2 H2 Hl2) by lia.
+    rewrite E. reflexivity.
+  Qed.
+
+  (* comments anywhere between the raw pieces never change what the parser is given *)
+  Theorem layout_invariance_comments_any infix lead1 lead2 items1 items2 :
+    all_space lead1 -> all_space lead2 ->
+    wf_items L0 N0 false items1 -> wf_items L0 N0 false items2 ->
+    drop_comments (map fst items1) = drop_comments (map fst items2) ->
+    option_map drop_comments (lex il inn infix (lead1 ++ render items1)) =
+    option_map drop_comments (lex il inn infix (lead2 ++ render items2)).
+  Proof.
+    intros Hl1 Hl2 H1 H2 E. unfold lex. rewrite !lex_factor.
+    rewrite (lex_render L0 N0 false items1 _ lead1 H1 Hl1) by lia.
+    rewrite (lex_render L0 N0 false items2 _ lead2 H2 Hl2) by lia.
+    rewrite !recl_drop, E. reflexivity.
+  Qed.
 End R.
 
 Print Assumptions indent_lex_any.
+Print Assumptions layout_invariance_any.
